@@ -27,6 +27,7 @@ import (
 	"bytes"
 	"fmt"
 	"math/rand"
+	"reflect"
 	"strconv"
 	"strings"
 	"unicode/utf8"
@@ -731,6 +732,84 @@ func wellFormed(st sx.Sexp) bool {
 	return false
 }
 
+// ---- storage shape -----------------------------------------------------------------------------------------------
+//
+// Which pool values share a backing array, and at which relative offset, is compared with the model as well: it is
+// what the idiom table predicts (fresh result / re-slice / the receiver itself), so a wrong classification by the
+// fact extractor shows as a correspondence failure even while the code is safe.  The slice header is READ through
+// reflect (unexported field `elements` / `entries`; nothing is written, no pcore behaviour depends on it).  Two slices
+// belong to the same array iff they end at the same address (`[i:j]` keeps the end of the capacity); capacities and
+// absolute addresses are NOT printed (they depend on Go's growth policy and pre-sizing, which may change freely).
+
+type sliceHeader struct {
+	end uintptr // address just past the capacity
+	rem int     // capacity = cells from the first element to `end`
+	n   int
+}
+
+func headerOf(v px.Value) (h sliceHeader, ok bool) {
+	defer func() {
+		if recover() != nil {
+			ok = false
+		}
+	}()
+	e := reflect.ValueOf(v).Elem()
+	if _, isMut := v.(*types.MutableHashValue); isMut {
+		e = e.FieldByName("Hash")
+	}
+	f := e.FieldByName("elements")
+	if !f.IsValid() {
+		f = e.FieldByName("entries")
+	}
+	if !f.IsValid() || f.Kind() != reflect.Slice {
+		return h, false
+	}
+	h.n = f.Len()
+	h.rem = f.Cap()
+	h.end = f.Pointer() + uintptr(f.Cap())*f.Type().Elem().Size()
+	return h, true
+}
+
+// shape: per pool entry `-` (no value), `x` (retired mutable hash), `e` (empty), or `<array>.<offset>` with arrays
+// numbered by first appearance and the offset relative to the left-most slice of that array in the pool
+func (h *hist) shape() string {
+	hs := make([]sliceHeader, len(h.pool))
+	maxRem := map[uintptr]int{}
+	for i, p := range h.pool {
+		if !p.live() {
+			continue
+		}
+		hd, ok := headerOf(p.v)
+		if !ok {
+			return "unreadable"
+		}
+		hs[i] = hd
+		if hd.n > 0 && hd.rem > maxRem[hd.end] {
+			maxRem[hd.end] = hd.rem
+		}
+	}
+	ids := map[uintptr]int{}
+	out := make([]string, len(h.pool))
+	for i, p := range h.pool {
+		switch {
+		case p.v == nil:
+			out[i] = "-"
+		case p.dead:
+			out[i] = "x"
+		case hs[i].n == 0:
+			out[i] = "e"
+		default:
+			id, seen := ids[hs[i].end]
+			if !seen {
+				id = len(ids)
+				ids[hs[i].end] = id
+			}
+			out[i] = strconv.Itoa(id) + "." + strconv.Itoa(maxRem[hs[i].end]-hs[i].rem)
+		}
+	}
+	return strings.Join(out, " ")
+}
+
 func contains(xs []int, x int) bool {
 	for _, y := range xs {
 		if y == x {
@@ -812,6 +891,12 @@ func exec(c px.Context, op string, steps []sx.Sexp) core.Result {
 				b.WriteString("panic")
 			}
 		}
+	}
+	// storage shape; `at` hands out a nested container whose identity the (one-level) model does not track
+	if h.tags["at"] {
+		b.WriteString(" | shape n/a")
+	} else {
+		b.WriteString(" | shape " + h.shape())
 	}
 	nt := derived
 	for _, u := range h.uses {
@@ -971,7 +1056,25 @@ func randCtor(r *rand.Rand) sx.Sexp {
 func randHistory(r *rand.Rand, length int) []sx.Sexp {
 	steps := []sx.Sexp{randCtor(r), randCtor(r)}
 	if r.Intn(3) == 0 {
+		// a mutable hash that is filled, sliced and merged while it keeps changing
+		m := len(steps)
 		steps = append(steps, st("mnew"))
+		for i := 0; i < 2+r.Intn(3); i++ {
+			steps = append(steps, st("mput", n(m), randVal(r, 0), randElem(r, len(steps))))
+			m = len(steps) - 1
+			if r.Intn(2) == 0 {
+				steps = append(steps, st([]string{"slice", "keys", "values", "merge", "select", "sort"}[r.Intn(6)], n(m), n(0), n(1)))
+				last := steps[len(steps)-1]
+				switch last.Tag() {
+				case "keys", "values", "sort":
+					steps[len(steps)-1] = st(last.Tag(), n(m))
+				case "merge":
+					steps[len(steps)-1] = st("merge", n(m), n(m))
+				case "select":
+					steps[len(steps)-1] = st("select", n(m), sx.A("all"))
+				}
+			}
+		}
 	}
 	for len(steps) < length {
 		size := len(steps)
@@ -1019,7 +1122,11 @@ func randHistory(r *rand.Rand, length int) []sx.Sexp {
 				s = st(s.Tag(), rr, sx.A(preds[r.Intn(len(preds))]))
 			}
 		case k < 35:
-			s = st("mput", rr, randVal(r, 0), randElem(r, size))
+			if r.Intn(4) == 0 {
+				s = st("mputall", rr, pick())
+			} else {
+				s = st("mput", rr, randVal(r, 0), randElem(r, size))
+			}
 		case k < 36:
 			s = st("at", rr, n(r.Intn(3)))
 		case k < 37:
